@@ -16,7 +16,7 @@ m = {
  "version": 1,
  "setup_cmd": "./check --setup",
  "hooks": {"guard": "verif", "enable": "go build -tags verif -overlay /verif/.cache/overlay.json (generated protobuf code is grafted with -overlay; /repo is not modified)",
-           "baseline_off_cmd": "cd /repo && go test -mod=mod -vet=off -count=1 ./...",
+           "baseline_off_cmd": "cd /repo && go test -mod=mod -json -vet=off -count=1 -timeout 25m ./...",
            "source_commits": [c.split()[0] for c in hooks_commits if c.split(None, 1)[1].startswith("verif hooks")],
            "add_only": True},
  "engines": [
